@@ -228,9 +228,12 @@ class Collection(AbstractPriorModel):
 
             if isinstance(value, AbstractPriorModel):
                 collection[key] = value.gaussian_prior_model_for_arguments(arguments)
-            if isinstance(value, Prior):
+            elif isinstance(value, Prior):
                 collection[key] = arguments[value]
+            elif isinstance(value, float):
+                collection[key] = value
 
+        collection.item_number = self.item_number
         return collection
 
     def _instance_for_arguments(
@@ -285,9 +288,12 @@ class Collection(AbstractPriorModel):
 
             if isinstance(value, AbstractPriorModel):
                 collection[key] = value.gaussian_prior_model_for_arguments(arguments)
-            if isinstance(value, Prior):
+            elif isinstance(value, Prior):
                 collection[key] = arguments[value]
+            elif isinstance(value, float):
+                collection[key] = value
 
+        collection.item_number = self.item_number
         return collection
 
     @property
